@@ -10,36 +10,39 @@ func fixedCases() []caseT {
 	return []caseT{
 		// K19a: Accepts ; AcceptsEncodings ; Accepts on one context
 		{N: &negCase{Calls: []negCall{
-			{kAccept, accept, []string{"html"}, false},
-			{kEncoding, "gzip", []string{"gzip"}, false},
-			{kAccept, accept, []string{"html"}, false},
+			{kAccept, accept, []string{"html"}, false, 0},
+			{kEncoding, "gzip", []string{"gzip"}, false, 0},
+			{kAccept, accept, []string{"html"}, false, 0},
 		}}},
 		// K19b: q=0 does not exclude
-		{N: &negCase{Calls: []negCall{{kEncoding, "gzip;q=0", []string{"gzip"}, false}}}},
-		{N: &negCase{Calls: []negCall{{kAccept, "text/html;q=0, */*", []string{"html", "json"}, false}}}},
-		{N: &negCase{Calls: []negCall{{kEncoding, "*;q=0.1, gzip", []string{"br", "gzip"}, false}}}},
-		{N: &negCase{Calls: []negCall{{kAccept, "text/*;q=0.9, text/html;q=0.1, application/json;q=0.5", []string{"html", "json"}, false}}}},
+		{N: &negCase{Calls: []negCall{{kEncoding, "gzip;q=0", []string{"gzip"}, false, 0}}}},
+		{N: &negCase{Calls: []negCall{{kAccept, "text/html;q=0, */*", []string{"html", "json"}, false, 0}}}},
+		{N: &negCase{Calls: []negCall{{kEncoding, "*;q=0.1, gzip", []string{"br", "gzip"}, false, 0}}}},
+		{N: &negCase{Calls: []negCall{{kAccept, "text/*;q=0.9, text/html;q=0.1, application/json;q=0.5", []string{"html", "json"}, false, 0}}}},
 		// K19e: a lone double quote as parameter value panicked
-		{N: &negCase{Calls: []negCall{{kEncoding, "gzip;q=\"", []string{"gzip"}, false}}}},
-		{N: &negCase{Calls: []negCall{{kAccept, "text/html;level=\"", []string{"html"}, false}}}},
+		{N: &negCase{Calls: []negCall{{kEncoding, "gzip;q=\"", []string{"gzip"}, false, 0}}}},
+		{N: &negCase{Calls: []negCall{{kAccept, "text/html;level=\"", []string{"html"}, false, 0}}}},
 		// K19f: upper-case Q
-		{N: &negCase{Calls: []negCall{{kEncoding, "gzip;Q=0", []string{"gzip"}, false}}}},
+		{N: &negCase{Calls: []negCall{{kEncoding, "gzip;Q=0", []string{"gzip"}, false, 0}}}},
 		// K19g: blank before the semicolon
-		{N: &negCase{Calls: []negCall{{kEncoding, "gzip ;q=0, *", []string{"gzip"}, false}}}},
-		{N: &negCase{Calls: []negCall{{kEncoding, "gzip ;q=0.5", []string{"gzip"}, false}}}},
+		{N: &negCase{Calls: []negCall{{kEncoding, "gzip ;q=0, *", []string{"gzip"}, false, 0}}}},
+		{N: &negCase{Calls: []negCall{{kEncoding, "gzip ;q=0.5", []string{"gzip"}, false, 0}}}},
 		// the arena boundary: 16 and 17 ranges cached, then another parse
 		{N: &negCase{Calls: []negCall{
-			{kAccept, "a/a,b/b,c/c,d/d,e/e,f/f,g/g,h/h,i/i,j/j,k/k,l/l,m/m,n/n,o/o,text/html", []string{"html"}, false},
-			{kLanguage, "en", []string{"en"}, false},
-			{kAccept, "a/a,b/b,c/c,d/d,e/e,f/f,g/g,h/h,i/i,j/j,k/k,l/l,m/m,n/n,o/o,text/html", []string{"html"}, false},
-			{kAccept, "a/a,b/b,c/c,d/d,e/e,f/f,g/g,h/h,i/i,j/j,k/k,l/l,m/m,n/n,o/o,p/p,text/html", []string{"html"}, false},
-			{kCharset, "utf-8", []string{"utf-8"}, false},
-			{kAccept, "a/a,b/b,c/c,d/d,e/e,f/f,g/g,h/h,i/i,j/j,k/k,l/l,m/m,n/n,o/o,p/p,text/html", []string{"html"}, false},
+			{kAccept, "a/a,b/b,c/c,d/d,e/e,f/f,g/g,h/h,i/i,j/j,k/k,l/l,m/m,n/n,o/o,text/html", []string{"html"}, false, 0},
+			{kLanguage, "en", []string{"en"}, false, 0},
+			{kAccept, "a/a,b/b,c/c,d/d,e/e,f/f,g/g,h/h,i/i,j/j,k/k,l/l,m/m,n/n,o/o,text/html", []string{"html"}, false, 0},
+			{kAccept, "a/a,b/b,c/c,d/d,e/e,f/f,g/g,h/h,i/i,j/j,k/k,l/l,m/m,n/n,o/o,p/p,text/html", []string{"html"}, false, 0},
+			{kCharset, "utf-8", []string{"utf-8"}, false, 0},
+			{kAccept, "a/a,b/b,c/c,d/d,e/e,f/f,g/g,h/h,i/i,j/j,k/k,l/l,m/m,n/n,o/o,p/p,text/html", []string{"html"}, false, 0},
 		}}},
+		// K19j: the second field line of a list-valued header
+		{N: &negCase{Calls: []negCall{{kEncoding, "*,gzip;q=0", []string{"gzip"}, false, 1}}}},
+		{N: &negCase{Calls: []negCall{{kAccept, "text/html;q=0.5,application/json", []string{"html", "json"}, false, 1}}}},
 		// documented rows of the suite
-		{N: &negCase{Calls: []negCall{{kLanguage, "en-US, en;q=0.9, fr;q=0.8", []string{"en", "fr", "de"}, false}}}},
-		{N: &negCase{Calls: []negCall{{kAccept, "text/html,application/xhtml+xml,application/xml;q=0.9,image/webp,image/apng,*/*;q=0.8", []string{"json", "html"}, false}}}},
-		{N: &negCase{Calls: []negCall{{kEncoding, "gzip, br;q=1.0, deflate;q=0.8", []string{"gzip", "br", "deflate"}, false}}}},
+		{N: &negCase{Calls: []negCall{{kLanguage, "en-US, en;q=0.9, fr;q=0.8", []string{"en", "fr", "de"}, false, 0}}}},
+		{N: &negCase{Calls: []negCall{{kAccept, "text/html,application/xhtml+xml,application/xml;q=0.9,image/webp,image/apng,*/*;q=0.8", []string{"json", "html"}, false, 0}}}},
+		{N: &negCase{Calls: []negCall{{kEncoding, "gzip, br;q=1.0, deflate;q=0.8", []string{"gzip", "br", "deflate"}, false, 0}}}},
 		// K19c: the fast path of Stringf
 		{F: &fmtCase{Code: 200, Format: hx1("100%%s"), Args: []argT{{K: "s", S: hx1("x")}}}},
 		{F: &fmtCase{Code: 200, Format: hx1("%s %d"), Args: []argT{{K: "s", S: hx1("x")}}}},
